@@ -126,6 +126,7 @@ void task_group_context_impl::bind_to_impl(d1::task_group_context& ctx, thread_d
     if (ctx.my_parent->my_may_have_children.load(std::memory_order_relaxed) != d1::task_group_context::may_have_children) {
         ctx.my_parent->my_may_have_children.store(d1::task_group_context::may_have_children, std::memory_order_relaxed); // full fence is below
     }
+    atomic_fence_seq_cst();
     if (ctx.my_parent->my_parent) {
         // Even if this context were made accessible for state change propagation
         // (by placing store_with_release(td->my_context_list_state.head.my_next, &ctx.my_node)
@@ -156,9 +157,10 @@ void task_group_context_impl::bind_to_impl(d1::task_group_context& ctx, thread_d
     } else {
         register_with(ctx, td); // Issues full fence
         // As we do not have grand-ancestors, concurrent state propagation (if any)
-        // may originate only from the parent context, and thus it is safe to directly
-        // copy the state from it.
-        ctx.my_cancellation_requested.store(ctx.my_parent->my_cancellation_requested.load(std::memory_order_relaxed), std::memory_order_relaxed);
+        // may originate only from the parent context. The context is already visible to the
+        // propagator, so never store 0 here: that could overwrite a concurrent painting.
+        if (ctx.my_parent->my_cancellation_requested.load(std::memory_order_relaxed))
+            ctx.my_cancellation_requested.store(1, std::memory_order_relaxed);
     }
 }
 
